@@ -203,8 +203,14 @@ def build_schedule(sched, with_app=True):
         app = App(dev)
         for i, cal in enumerate(sched.get("calendars", [])):
             app.add_object(L.CalendarObject(objectIdentifier=("calendar", i + 1), objectName="cal%d" % i, dateList=[entry_to_lib(e_) for e_ in cal]))
+    kw = dict(weeklySchedule=weekly, exceptionSchedule=C.ArrayOf(B.SpecialEvent)(exs))
+    # a schedule may have only one of the two (the other property is absent, not empty)
+    if sched.get("shape") == "no-weekly":
+        del kw["weeklySchedule"]
+    elif sched.get("shape") == "no-exceptions":
+        del kw["exceptionSchedule"]
     so = L.S.LocalScheduleObject(objectIdentifier=("schedule", 1), objectName="sched", presentValue=atom(dt, sched["default"]), effectivePeriod=eff,
-                                 weeklySchedule=weekly, exceptionSchedule=C.ArrayOf(B.SpecialEvent)(exs), scheduleDefault=atom(dt, sched["default"]))
+                                 scheduleDefault=atom(dt, sched["default"]), **kw)
     if app is not None:
         app.add_object(so)
     return so, app
@@ -373,8 +379,15 @@ def sched_strategy(whole_seconds=False):
     period = st.one_of(entry, entry, st.integers(0, 0).map(lambda i: ["cal", i]))
     exc = st.lists(st.tuples(st.integers(1, 16), period, tvs), max_size=4, unique_by=lambda t: t[0]).map(lambda l: [dict(prio=p, period=per, tv=tv) for p, per, tv in l])
     eff = st.one_of(st.just([None, None]), st.just([[0, 1, 1], [254, 12, 31]]), rng.map(lambda r: [r[1], r[2]]))
+    def shape(d):
+        if d["shape"] == "no-weekly":
+            d["weekly"] = [[] for _ in range(7)]
+        elif d["shape"] == "no-exceptions":
+            d["exceptions"] = []
+        return d
     return st.fixed_dictionaries(dict(effective=eff, weekly=st.lists(tvs, min_size=7, max_size=7), exceptions=exc, calendars=calendars,
-                                      default=st.integers(0, 9), dtype=st.sampled_from(["Real", "Unsigned", "Boolean", "Enumerated"]))), probe_days
+                                      default=st.integers(0, 9), dtype=st.sampled_from(["Real", "Unsigned", "Boolean", "Enumerated"]),
+                                      shape=st.sampled_from(["both", "both", "both", "no-weekly", "no-weekly", "no-exceptions"]))).map(shape), probe_days
 
 
 def plan(tier, seed):
